@@ -296,7 +296,9 @@ def gen_session(seed, tier):
              "rate=0 secs=2 step=500000",
              "rate=100000 secs=6 step=100000 change=3:10000",
              "rate=50000 secs=8 step=250000 slave=10000",
-             "rate=10240 secs=6 step=500000 change=2:0,4:10240"]
+             "rate=10240 secs=6 step=500000 change=2:0,4:10240",
+             "rate=10240 secs=14 step=500000 idle=10",
+             "rate=60000 secs=10 step=250000 idle=6 slave=20000"]
     n = 3 if tier == "quick" else 40
     for _ in range(n):
         rate = r.choice([3000, 8192, 8193, 20000, 65536, 131073, 400000, 1 << 20])
@@ -306,5 +308,7 @@ def gen_session(seed, tier):
             c += " change=%d:%d" % (r.randrange(1, 4), r.choice([0, 5000, 50000, 300000]))
         elif k < 0.6:
             c += " slave=%d" % r.choice([0, 4000, 30000, 2 * rate])
+        if r.random() < 0.3:
+            c += " idle=%d" % r.randrange(2, 4)
         cases.append(c)
     return cases
